@@ -197,7 +197,8 @@ impl ValidatorParser {
                     if quote_char == '"' || quote_char == '\'' {
                         // Find the closing quote, handling escaped quotes
                         let rest = &after_eq[1..];
-                        let chars = rest.chars().enumerate();
+                        // Byte offsets (not character counts): `i` is used to slice `rest`
+                        let chars = rest.char_indices();
                         let mut escaped = false;
 
                         for (i, ch) in chars {
